@@ -150,9 +150,14 @@ impl<'a> Interpreter<'a> {
             return Err(CelError::runtime("Max call depth excceded"));
         }
 
+        #[cfg(feature = "rscel_verif")]
+        crate::verif::enter(prog);
+
         while pc < prog.len() {
             let oldpc = pc;
             pc += 1;
+            #[cfg(feature = "rscel_verif")]
+            crate::verif::step(prog, oldpc, stack.stack.len());
             match &prog[oldpc] {
                 ByteCode::Push(val) => stack.push_val(val.clone()),
                 ByteCode::Pop => {
@@ -487,6 +492,9 @@ impl<'a> Interpreter<'a> {
                 }
             };
         }
+
+        #[cfg(feature = "rscel_verif")]
+        crate::verif::exit(prog, stack.stack.len());
 
         if resolve {
             match stack.pop() {
